@@ -382,3 +382,9 @@ func FireTimers() int   { return 0 }
 
 // Debug prints its arguments when the engine runs with GOSYM_DEBUG set.
 func Debug(label string, v ...interface{}) {}
+
+// M-ws dial recorder (engine only).
+func WSDials() int                 { return 0 }
+func WSDialURL(i int) string       { return "" }
+func WSDialPeer(i int) interface{} { return nil }
+func WSDialFail(fail bool)         {}
